@@ -49,7 +49,9 @@ def correspond(ctx: Ctx) -> Result:
             counts = list(ref.nwrites)
             _, ref_nwr = cc.model_trace(wl, ref) if mode == "sync" else (None, None)
             targets = [(r, n) for r in range(wl["W"]) for n in range(counts[r])]
-            if not ctx.thorough and len(targets) > 6:
+            if not ctx.thorough and wl.get("conc_after") and mode == "async":
+                targets = [t for t in targets if t[0] == 0][:12]               # designed: every write of rank 0
+            elif not ctx.thorough and len(targets) > 6:
                 keep = [t for t in targets if t == (0, counts[0] - 1)]          # always the metadata write
                 targets = keep + rng.sample([t for t in targets if t not in keep], 5)
             for (fr, fn_) in targets:
@@ -60,7 +62,7 @@ def correspond(ctx: Ctx) -> Result:
                     root = ctx.scratch("fail")
                     path = os.path.join(root, "snap")
                     seed = rng.randrange(1 << 30)
-                    how = "fail-empty" if (seed % 3 == 0) else "fail"     # a third of the faults carry an EMPTY message
+                    how = "fail-late" if wl.get("conc_after") else ("fail-empty", "fail-late", "fail")[seed % 3]     # a third of the faults carry an EMPTY message
                     policy = (lambda r, p, n, fr=fr, fn_=fn_, how=how: how if (r == fr and n == fn_) else None)
                     world = cc.run_take(wl, path, mode, sched, seed, write_policy=policy)
                     replay = {"workload": wl, "mode": mode, "sched": sched, "seed": seed, "fail_rank": fr, "fail_nth": fn_, "how": how}
